@@ -60,6 +60,8 @@ def gen_program(rng: random.Random, ntasks: int, steps_per_task: int) -> list[di
     def supply() -> list[list[Any]]:
         return [[t, g.fresh_uid()] for t in types if rng.random() < 0.6]
 
+    prepared_by_root: list[dict[str, Any]] = []
+
     def task_body(task: str, nops: int, depth: int = 0) -> list[dict[str, Any]]:
         body: list[dict[str, Any]] = [g.probe()]
         while nops[0] > 0:
@@ -77,6 +79,15 @@ def gen_program(rng: random.Random, ntasks: int, steps_per_task: int) -> list[di
                 sub = [min(nops[0], rng.randint(0, 2))]
                 nops[0] -= sub[0]
                 blk["body"] = task_body(task, sub, depth + 1)
+                if kind in ("sscope", "ascope") and "disposables" not in blk and rng.random() < 0.35:
+                    # the scope object is built ahead of time - by this task before it does anything else, or by the root and
+                    # handed over - and only entered here: it must bind to the context current at the point of entry
+                    blk["prepared"] = True
+                    prep = {"op": "prepare", "block": {k: blk[k] for k in ("kind", "name", "supply")}}
+                    if rng.random() < 0.5:
+                        prepared_by_root.append(prep)
+                    else:
+                        body.insert(0, prep)
                 body.append(blk)
             body.append(g.probe())
             if depth > 0 and rng.random() < 0.35:
@@ -129,6 +140,7 @@ def gen_program(rng: random.Random, ntasks: int, steps_per_task: int) -> list[di
     body.append(g.probe())
     if plain:
         body.append({"op": "join", "names": plain})
+    body[1:1] = prepared_by_root  # right after the root's first probe, before anything is spawned
     return [g.probe(), root, g.probe()]
 
 
